@@ -132,6 +132,37 @@ class BuiltinsMixin:
             if len(args) == 2:
                 return SV(None, Ty("iter"), ("range", IV(args[0].term), IV(args[1].term)))
             raise Unsupported("range with step")
+        if name in ("filter", "map") and len(args) == 2 and getattr(self, "lenient", False) and not self.pure:
+            src = self.to_list(args[1], fr, node)
+            r = H.rid(src)
+            n = H.list_len(st, r)
+            ety = src.ty.elt() if src.ty else None
+            j = z3.Int(st.fresh_name("fj"))
+            if name == "filter":
+                # result: an ordered subsequence whose every element satisfies the predicate (predicate evaluated in spec mode)
+                m = st.fresh("flen", INT)
+                out = H.list_new(st, None, m, ty=src.ty)
+                imap = st.fresh("fmap", z3.ArraySort(INT, INT))
+                st.assume(z3.And(m >= 0, m <= n))
+                self.pure += 1
+                self.qdepth += 1
+                try:
+                    el = SV(H.list_get(st, H.rid(out), j), ety)
+                    ok = self.truthy(self.lenient_apply(args[0], [el], {}, fr, node, 'filter-predicate'))
+                finally:
+                    self.pure -= 1
+                    self.qdepth -= 1
+                st.assume(z3.ForAll([j], z3.Implies(z3.And(0 <= j, j < m),
+                                                    z3.And(ok, 0 <= z3.Select(imap, j), z3.Select(imap, j) < n,
+                                                           H.list_get(st, H.rid(out), j) == H.list_get(st, r, z3.Select(imap, j))))))
+                return out
+            # map: the function is applied to an arbitrary element (exec mode, so its checks fire); the result list is opaque
+            k = st.fresh("mk", INT)
+            if st.decide(z3.And(0 <= k, k < n), "map: source non-empty"):
+                el = SV(H.list_get(st, r, k), ety)
+                self.assume_type(el.term, ety, fr)
+                self.lenient_apply(args[0], [el], {}, fr, node, 'map-function')
+            return H.list_new(st, None, n, ty=Ty("list"))
         if name == "reversed":
             raise Unsupported("reversed()")
         if name == "sorted":
